@@ -256,14 +256,25 @@ package cdi
 // a type argument checked by gocv (typeframe).
 // CacheWF: representation invariant of the index (established by refresh from newSpec's results).
 //@ pred CacheWF(c *Cache) = forall(k, string, has(c.devices, k), c.devices[k] != nil && c.devices[k].Device != nil &&
-//@        c.devices[k].spec != nil && c.devices[k].spec.Spec != nil)
+//@        c.devices[k].spec != nil && c.devices[k].spec.Spec != nil &&
+//@        NoNilEntries(val(&c.devices[k].ContainerEdits)) && NoNilEntries(val(&c.devices[k].spec.ContainerEdits)))
+
+// Allocation-time separation: everything reachable from the index was allocated no later than `a`.
+//@ pred ListsBefore(e cdi.ContainerEdits, a int) = own(e.DeviceNodes) <= a && own(e.Hooks) <= a && own(e.Mounts) <= a &&
+//@        own(e.Env) <= a && own(e.AdditionalGIDs) <= a
+//@ pred ListsAfter(e cdi.ContainerEdits, a int) = (base(e.DeviceNodes) == 0 || own(e.DeviceNodes) > a) &&
+//@        (base(e.Hooks) == 0 || own(e.Hooks) > a) && (base(e.Mounts) == 0 || own(e.Mounts) > a) &&
+//@        (base(e.Env) == 0 || own(e.Env) > a) && (base(e.AdditionalGIDs) == 0 || own(e.AdditionalGIDs) > a)
+//@ pred CacheBefore(c *Cache, a int) = forall(k, string, has(c.devices, k), own(c.devices[k]) <= a &&
+//@        own(c.devices[k].Device) <= a && own(c.devices[k].spec) <= a && own(c.devices[k].spec.Spec) <= a &&
+//@        ListsBefore(val(&c.devices[k].ContainerEdits), a) && ListsBefore(val(&c.devices[k].spec.ContainerEdits), a))
 
 //@ func (c *Cache) refreshIfRequired(force bool) (refreshed bool, err error)
 //@   trusted
 //@   typeframe github.com/opencontainers/runtime-spec/specs-go
 //@   preserves github.com/opencontainers/runtime-spec/specs-go, tags.cncf.io/container-device-interface/specs-go
 //@   frametags C04
-//@   ensures CacheWF(c)
+//@   ensures CacheWF(c) && CacheBefore(c, allocNow())
 
 //@ func (e *ContainerEdits) Append(o *ContainerEdits) (r *ContainerEdits)
 //@   modifies e.ContainerEdits if e != nil, e.ContainerEdits.* if e != nil && e.ContainerEdits != nil
@@ -279,6 +290,9 @@ package cdi
 //@                   e.Mounts == old(e.Mounts) && e.AdditionalGIDs == old(e.AdditionalGIDs) && e.IntelRdt == old(e.IntelRdt))
 //@   ensures implies(e != nil && o != nil && o.ContainerEdits != nil,
 //@                   e.ContainerEdits != nil && (e.ContainerEdits == old(e.ContainerEdits) || fresh(e.ContainerEdits)))
+//@   ensures implies(e != nil && o != nil && o.ContainerEdits != nil &&
+//@                   (old(e.ContainerEdits) == nil || old(NoNilEntries(val(e.ContainerEdits)))) && old(NoNilEntries(val(o.ContainerEdits))),
+//@                   NoNilEntries(val(e.ContainerEdits)))
 //@   ensures implies(e != nil && o != nil && o.ContainerEdits != nil,
 //@                   (base(e.Env) == 0 || (old(e.ContainerEdits) != nil && base(e.Env) == old(base(e.Env))) || fresh(e.Env)) &&
 //@                   (base(e.DeviceNodes) == 0 || (old(e.ContainerEdits) != nil && base(e.DeviceNodes) == old(base(e.DeviceNodes))) || fresh(e.DeviceNodes)) &&
@@ -287,6 +301,11 @@ package cdi
 //@                   (base(e.AdditionalGIDs) == 0 || (old(e.ContainerEdits) != nil && base(e.AdditionalGIDs) == old(base(e.AdditionalGIDs))) || fresh(e.AdditionalGIDs)))
 
 //@ func (e *ContainerEdits) Apply(spec *oci.Spec) (err error)
+//@   requires e == nil || e.ContainerEdits == nil || NoNilEntries(val(e.ContainerEdits))
+//@   loop 1 invariant specgen.Config == spec
+//@   loop 2 invariant specgen.Config == spec
+//@   loop 3 invariant specgen.Config == spec
+//@   loop 4 invariant specgen.Config == spec
 //@   preserves tags.cncf.io/container-device-interface/specs-go, tags.cncf.io/container-device-interface/pkg/cdi
 //@   frametags C14
 //@   ensures implies(spec == nil, err != nil)
@@ -296,6 +315,8 @@ package cdi
 //@   preserves tags.cncf.io/container-device-interface/specs-go
 //@   frametags C14
 //@   ghostvar idx intarray
+//@   ghostvar a1 int
+//@   ghost at after call of refreshIfRequired: a1 = allocNow()
 //@   ghost at loop 1 body end: idx = ite(len(unresolved) > len(#hd_unresolved), store(idx, len(#hd_unresolved), #i - 1), idx)
 //@   ensures[C04] implies(ociSpec == nil, err != nil && unresolved == devices && preserved("github.com/opencontainers/runtime-spec/specs-go"))
 //@   ensures[C04] implies(ociSpec != nil, forall(j, 0 <= j && j < len(unresolved), 0 <= idx[j] && idx[j] < len(devices) &&
@@ -315,3 +336,58 @@ package cdi
 //@   loop 1 invariant edits != nil && fresh(edits) && (edits.ContainerEdits == nil || (fresh(edits.ContainerEdits) && OwnLists(edits.ContainerEdits)))
 //@   loop 1 invariant base(devices) == 0 || base(devices) != base(unresolved)
 //@   loop 1 invariant edits.ContainerEdits == nil || base(edits.Env) == 0 || base(edits.Env) != base(unresolved)
+//@   loop 1 invariant edits.ContainerEdits == nil || NoNilEntries(val(edits.ContainerEdits))
+//@   loop 1 invariant CacheWF(c) && CacheBefore(c, a1)
+//@   loop 1 invariant own(edits) > a1 && (edits.ContainerEdits == nil || (own(edits.ContainerEdits) > a1 && ListsAfter(val(edits.ContainerEdits), a1)))
+
+// ---------------------------------------------------------------- Apply and helpers (C14: frame; C08: preconditions)
+
+//@ pred NoNilEntries(c cdi.ContainerEdits) = forall(i, 0 <= i && i < len(c.DeviceNodes), c.DeviceNodes[i] != nil) &&
+//@        forall(i, 0 <= i && i < len(c.Hooks), c.Hooks[i] != nil) && forall(i, 0 <= i && i < len(c.Mounts), c.Mounts[i] != nil)
+
+//@ func deviceInfoFromPath(path string) (devType string, major, minor int64, err error)
+//@   pure
+
+//@ func (d *DeviceNode) fillMissingInfo() (err error)
+//@   requires d != nil && d.DeviceNode != nil
+//@   modifies d.DeviceNode.HostPath, d.DeviceNode.Type, d.DeviceNode.Major, d.DeviceNode.Minor
+//@   frametags C14
+
+//@ func (d *DeviceNode) toOCI() (r oci.LinuxDevice)
+//@   pure
+//@   requires d != nil && d.DeviceNode != nil
+//@   ensures r.Path == d.Path && r.Type == d.Type && r.Major == d.Major && r.Minor == d.Minor &&
+//@           r.FileMode == d.FileMode && r.UID == d.UID && r.GID == d.GID
+//@ func (m *Mount) toOCI() (r oci.Mount)
+//@   pure
+//@   requires m != nil && m.Mount != nil
+//@   ensures r.Source == m.HostPath && r.Destination == m.ContainerPath && r.Options == m.Options && r.Type == m.Type
+//@ func (h *Hook) toOCI() (r oci.Hook)
+//@   pure
+//@   requires h != nil && h.Hook != nil
+//@   ensures r.Path == h.Path && r.Args == h.Args && r.Env == h.Env && r.Timeout == h.Timeout
+//@ func (i *IntelRdt) toOCI() (r *oci.LinuxIntelRdt)
+//@   pure
+//@   requires i != nil && i.IntelRdt != nil
+//@   ensures r != nil && fresh(r)
+
+//@ func ensureOCIHooks(spec *oci.Spec)
+//@   requires spec != nil
+//@   modifies spec.Hooks
+//@   frametags C14
+//@   ensures spec.Hooks != nil
+
+//@ func sortMounts(specgen *ocigen.Generator)
+//@   requires specgen != nil && specgen.Config != nil
+//@   preserves tags.cncf.io/container-device-interface/specs-go, tags.cncf.io/container-device-interface/pkg/cdi
+//@   frametags C14
+//@   ensures specgen.Config == old(specgen.Config)
+
+//@ func (d *Device) ApplyEdits(ociSpec *oci.Spec) (err error)
+//@   requires d != nil && d.Device != nil && NoNilEntries(val(&d.ContainerEdits))
+//@   preserves tags.cncf.io/container-device-interface/specs-go, tags.cncf.io/container-device-interface/pkg/cdi
+//@   frametags C14
+//@ func (s *Spec) ApplyEdits(ociSpec *oci.Spec) (err error)
+//@   requires s != nil && s.Spec != nil && NoNilEntries(val(&s.ContainerEdits))
+//@   preserves tags.cncf.io/container-device-interface/specs-go, tags.cncf.io/container-device-interface/pkg/cdi
+//@   frametags C14
